@@ -38,9 +38,16 @@ def _work(job):
         from pyvc import api, verify
         reg = load_all()
         if kind == 'unit':
-            c = reg.contracts[name]
-            r = verify.verify_unit(c, do_cross=True, cross_n=opts.get('cross_n', 30), seed=opts.get('seed', 0), both=opts.get('both', False))
-            return kind, name, r.summary()
+            cases = None
+            uname = name
+            if isinstance(name, tuple):
+                uname, cases = name[0], list(name[1])
+            c = reg.contracts[uname]
+            r = verify.verify_unit(c, do_cross=(cases is None or 0 in cases), cross_n=opts.get('cross_n', 30), seed=opts.get('seed', 0), both=opts.get('both', False), cases=cases)
+            s = r.summary()
+            if cases is not None:
+                s['unit'] = "%s[cases %d-%d]" % (uname, cases[0], cases[-1])
+            return kind, (uname if cases is None else s['unit']), s
         if kind == 'lemma':
             r = verify.verify_lemma(reg.lemmas[name], both=opts.get('both', False))
             return kind, name, r.summary()
@@ -211,12 +218,16 @@ def check(args):
     units = [k for k, c_ in reg.contracts.items() if pid in c_.props and c_.verify]
     assumed = [k for k, c_ in reg.contracts.items() if pid in c_.props and not c_.verify]
     lemmas = [k for k, l_ in reg.lemmas.items() if pid in l_.props]
-    # lemmas used transitively are checked under every property that may use them: keep it simple, check all tagged '*'
-    lemmas += [k for k, l_ in reg.lemmas.items() if '*' in l_.props and k not in lemmas]
     if args.only:
         units = [u for u in units if args.only in u]
     for u in units:
-        jobs.append(('unit', u, opts))
+        cu = reg.contracts[u]
+        if cu.cases:
+            n, ch = len(cu.cases), max(1, cu.case_chunk)
+            for a in range(0, n, ch):
+                jobs.append(('unit', (u, tuple(range(a, min(n, a + ch)))), opts))
+        else:
+            jobs.append(('unit', u, opts))
     for l_ in lemmas:
         jobs.append(('lemma', l_, opts))
     for u in units:
@@ -231,6 +242,18 @@ def check(args):
         print("no checks registered for", pid)
         return 3
     results = run_jobs(jobs, args.jobs, tier)
+    # lemmas used by the units (transitively) are proved under this property too
+    done = set(lemmas)
+    while True:
+        used = set()
+        for kind, name, r in results:
+            if isinstance(r, dict):
+                used |= set(r.get('lemmas_used', []))
+        todo = sorted(l_ for l_ in used if l_ not in done and l_ in reg.lemmas)
+        if not todo:
+            break
+        done |= set(todo)
+        results += run_jobs([('lemma', l_, opts) for l_ in todo], args.jobs, tier)
     return report.finish(pid, tier, seed, results, reg, assumed, time.time() - t0, load_known(), match_known)
 
 
